@@ -30,8 +30,8 @@ CHECKS = {
           "Virtual time only; an endpoint without timeout has no obligation under silent stalls; quick tier d=1 is time-capped (reported).",
           "DESIGN.md 4/C06"),
   "C08": ("model_checking",
-          "explicit-state breadth-first search over peer frame histories (alphabet of 73 raw frames incl. malformed ones) from 8 API-state prefixes, each state rebuilt by re-execution on one real endpoint",
-          "All frame sequences of depth <= 2 (quick) / <= 3 (thorough) after each of 8 API states (fresh, connecting, connected reading/idle, half-closed either way, freed, request queued). Oracle: no panic in any task; afterwards the endpoint either passes a conforming liveness exchange in both directions or run() returned Protocol/Reset/StreamClosed (or an orderly Goodbye exchange) and every local handle reports an error; accepted-but-unread payload <= receive buffer + 64.",
+          "explicit-state breadth-first search over peer frame histories (alphabet of 73 raw frames incl. malformed ones) from 8 API-state prefixes, each state rebuilt by re-execution on one real endpoint; the peer advertises a receive buffer of its own far larger than the endpoint's",
+          "All frame sequences of depth <= 2 (quick) / <= 3 (thorough) after each of 8 API states (fresh, connecting, connected reading/idle, half-closed either way, freed, request queued). Oracle: no panic in any task; afterwards the endpoint either passes a conforming liveness exchange in both directions or run() returned Protocol/Reset/StreamClosed (or an orderly Goodbye exchange) and every local handle reports an error; accepted-but-unread payload <= the endpoint's own receive buffer + 64 (checked with floods of 3..24 full data frames on an idle port, the peer having advertised 4096 for itself).",
           "Local actors run to quiescence on the default schedule after each frame. Alphabet values are boundary values, not all 2^32.",
           "DESIGN.md 4/C08"),
   "C09": ("model_checking",
@@ -45,9 +45,9 @@ CHECKS = {
           "Cfg::ports_exhausted is never read by the implementation (documented finding F7) and is therefore not an enumerated dimension; per-request wait flags are.",
           "DESIGN.md 4/C10"),
   "C11": ("model_checking",
-          "deviation-bounded schedule exploration (d<=2/3) of close / receiver drop / sender drop / cancelled close at every position of a 4-message stream with a chunked message on real chmux ports",
-          "Oracle: after close every send that returned Ok is received, later sends fail Closed{gracefully:true}, closed() resolves; after receiver drop later sends fail Closed{gracefully:false} and received is a prefix; after sender drop the receiver gets everything then end-of-stream; nothing hangs.",
-          "Port level; typed channels are exercised through C04/C05 scenarios. select! fairness fixed per seed.",
+          "deviation-bounded schedule exploration (d<=2/3) of close / receiver drop / sender drop / cancelled close at every position of a 4-message stream with a chunked message on real chmux ports; bounded exhaustive enumeration of the same events (plus connection cut) on every typed channel kind and placement, with schedule exploration of the racing cases",
+          "Ports: after close every send that returned Ok is received, later sends fail Closed{gracefully:true}, closed() resolves; after receiver drop later sends fail Closed{gracefully:false} and received is a prefix; after sender drop the receiver gets everything then end-of-stream; nothing hangs. Typed channels (base; mpsc with the sender remote, the receiver remote, a local plus a remote sender, two remote senders; lr with either half remote; oneshot with either half remote; bin with either half remote): event = receiver close / receiver drop / drop of all senders / connection cut after 0..4 values per sender (one value spans several chunks), both settled (everything before it delivered, later sends start after it is observable) and racing with the sends; oracle: per sender the received values are a prefix of the accepted ones, intact; a Sending handle that resolved Ok (or a send that returned Ok on channels without handles) is delivered after a close and after sender drop, undelivered accepted values form a suffix whose handles report dropped / a send error and never hang; after sender drop the receiver gets everything and then end-of-stream (oneshot: Closed when nothing was sent); the condition becomes observable at the sender (closed() resolves) and every classification the API offers (ClosedReason of sender and of the send error, Closed{gracefully}, error kind) is closed / dropped / failed as the event demands; after a cut the receiver never reports a clean end with values missing.",
+          "Channels are used over one connection; forwarded (multi-hop) halves are C05/C20's subject. Known finding F14 (send error of a local mpsc sender after its receiver was dropped). select! fairness fixed per seed.",
           "DESIGN.md 4/C11"),
   "C04": ("model_checking",
           "bounded exhaustive item-sequence enumeration on real base / lr / mpsc / oneshot channels with a per-sender prefix oracle; deviation-bounded schedule exploration for scripts without helper threads",
@@ -76,7 +76,7 @@ CHECKS = {
           "DESIGN.md 4/C18"),
   "C12": ("model_checking",
           "grid enumeration of server flavours x client mixes x calls + deviation-bounded schedule exploration; execution-log multiset matching (at most once, own caller) and brute-force linearizability search",
-          "Server flavours: by value, ref-mut, shared-mut with/without spawn, shared with/without spawn; 2-3 clients (one local, remote clones) issuing get / slow_get / add (read-yield-write) / #[no_cancel] add_nc / take; connection cut after every frame; the caller of a #[no_cancel] mutating method dropped at every poll while the callee is suspended between its two side effects. Oracle: every Ok result is the result of exactly one execution with those arguments, no execution credited twice, executions <= calls, and a sequential order of the calls respecting real-time order reproduces all results (failed mutating calls may or may not have taken effect).",
+          "Server flavours: by value, ref-mut, shared-mut with/without spawn, shared with/without spawn; 2-3 clients (one local, remote clones) issuing get / slow_get / add (read-yield-write) / #[no_cancel] add_nc / take; connection cut after every frame; the caller of a #[no_cancel] mutating method dropped at every poll while the callee is suspended between its two side effects. Oracle: every Ok result is the result of exactly one execution with those arguments, no execution credited twice, executions <= calls, and a sequential order of the calls respecting real-time order reproduces all results (failed mutating calls may or may not have taken effect). Remote functions: RFn with a local and remote clones calling concurrently, RFnMut and RFnOnce held on a remote endpoint, calls abandoned at every poll index and followed by further calls, executions optionally held at a gate between reading and writing their state, connection cut after every frame, schedules of core cases; oracle: own result of exactly one execution, at most once, executions of an FnMut / FnOnce never overlap and lose no update, sequential-order search.",
           "Real-time order from the scheduler step counter. History size <= 7 completed calls for the brute-force search.",
           "DESIGN.md 4/C12"),
   "C19": ("model_checking",
